@@ -105,6 +105,20 @@ pub async fn history(cx: &mut Context<'_>, command: &HistoryCommand) -> Result<A
     // Before the total is computed, so a page count cannot report entries the
     // page itself will not contain (§104).
     visible_changes(cx, &mut rows).await;
+    if let Some(id) = &element {
+        // The rows were selected because they changed this element. A row that
+        // survives the filter only through its *other* changes - a transaction
+        // that wrote a readable element beside this one - no longer has
+        // anything to say about it, and listing it with an empty change list
+        // would still say that the element exists and when it was touched
+        // (§103). An element this caller may not read has the chronology of
+        // one that was never written.
+        rows.retain(|row| {
+            row.changes
+                .iter()
+                .any(|change| change.get("id").and_then(Json::as_str) == Some(id.as_str()))
+        });
+    }
 
     let total = rows.len();
     let page: Vec<Json> = rows
